@@ -3,7 +3,8 @@
 
 From Coq Require Import ZArith List Bool Arith Permutation.
 Import ListNotations.
-From GV Require Import C07.Lemmas.
+From GV Require Import gen.Gen_hub.
+From GV Require Import C07.Lemmas C07.GenEquiv C07.GenLemmas.
 Open Scope nat_scope.
 
 (* the subscription chosen for a listener is one of its subscriptions whose class is an ancestor of the message's class, and none of its matching subscriptions is more derived; none is chosen only when none matches *)
@@ -166,3 +167,149 @@ Theorem same_message_twice_delivered_twice : forall fuel w s i c st s' lg,
                to_calls (i, c) (find_handlers w (subs s1) (i, c)).
 Proof. exact Lemmas.same_message_twice_delivered_twice. Qed.
 Print Assumptions same_message_twice_delivered_twice.
+
+(* ================= the functions translated from glue/core/hub.py (gen/Gen_hub.v, regenerated on every run) =================
+   [grun] is the script interpreter of Model.v whose hub operations are the translated methods hub_broadcast,
+   hub_delay_callbacks, hub_ignore_callbacks, hub_subscribe, hub_unsubscribe, hub_unsubscribe_all, hub_find_handlers and
+   their loops; [R g s] says that the translated hub state [g] represents the model state [s] (GenEquiv.v). *)
+
+(* the interpreter over the translated methods does, with the same fuel, exactly what the model does: same status, same log, related final states (or both run out of fuel) *)
+Theorem gen_refines : forall fuel w s g t, R g s -> Rres (run fuel w s t) (grun fuel w g (emb_task t)).
+Proof. exact GenLemmas.gen_refines. Qed.
+Print Assumptions gen_refines.
+
+(* the empty translated hub represents the empty model hub *)
+Theorem gen_start : R gempty empty_hub.
+Proof. exact GenLemmas.gen_start. Qed.
+Print Assumptions gen_start.
+
+(* the translated _find_handlers never raises and returns the model's find_handlers *)
+Theorem gen_find_handlers : forall w m (g : ghub) S,
+  g_subscriptions g = emb_subs S ->
+  hub_find_handlers (gops w) g m = Some (emb_hs (find_handlers w S m)).
+Proof. exact GenLemmas.gen_find_handlers. Qed.
+Print Assumptions gen_find_handlers.
+
+(* hence its result is the candidates (one per accepting listener, in subscription order) stably sorted by descending priority *)
+Theorem gen_recipients_priority_order : forall w m (g : ghub) S,
+  g_subscriptions g = emb_subs S ->
+  exists cs,
+    hub_find_handlers (gops w) g m = Some (emb_hs (map fst cs)) /\
+    Permutation cs (candidates w S m) /\
+    desc cs /\
+    (forall p, filter (fun y => (prio y =? p)%Z) cs = filter (fun y => (prio y =? p)%Z) (candidates w S m)) /\
+    Subseq (map (fun x => fst (fst x)) (candidates w S m)) (map fst S).
+Proof. exact GenLemmas.gen_recipients_priority_order. Qed.
+Print Assumptions gen_recipients_priority_order.
+
+(* the KeyError / ValueError paths of the translated methods are never taken and the representation invariant is kept *)
+Theorem gen_never_crashes : forall fuel w s g t gst g' lg,
+  R g s -> grun fuel w g (emb_task t) = Some (gst, g', lg) ->
+  gst <> GCrash /\ exists s', R g' s'.
+Proof. exact GenLemmas.gen_never_crashes. Qed.
+Print Assumptions gen_never_crashes.
+
+(* translated code: while any delay block is open, under any nesting of further delay / ignore blocks, nothing is delivered (in particular leaving an inner block does not flush); the queue grows by the script's non-ignored broadcasts in order; depth and ignore counts are restored *)
+Theorem gen_open_block_only_queues : forall fuel w s g sc gst g' lg,
+  R g s -> g_paused g <> 0%Z ->
+  grun fuel w g (GScript sc) = Some (gst, g', lg) ->
+  no_delivery lg /\
+  g_queue g' = g_queue g ++ fst (queued (ign s) sc) /\
+  gst = emb_status (status_of (snd (queued (ign s) sc))) /\
+  g_paused g' = g_paused g /\
+  (forall k, ctr_getitem k (g_ignore g') = ctr_getitem k (g_ignore g)).
+Proof. exact GenLemmas.gen_open_block_only_queues. Qed.
+Print Assumptions gen_open_block_only_queues.
+
+(* translated code: an outermost delay block delivers nothing while it is open; when it closes - normally or by an exception, which then propagates - every queued message is delivered once, in order; afterwards the queue is empty and no block is open *)
+Theorem gen_delay_holds_everything : forall fuel w s g body gst g' lg,
+  R g s -> handlers_rf w -> wf_subs (subs s) ->
+  g_paused g = 0%Z -> g_queue g = [] ->
+  grun fuel w g (GAct (Delay body)) = Some (gst, g', lg) ->
+  let q := fst (queued (ign s) body) in
+  let raised := snd (queued (ign s) body) in
+  exists lbody lflush,
+    lg = EOpen :: lbody ++ EEnd :: lflush ++ [EClose] /\
+    no_delivery lbody /\
+    Blocks q (top 0 lflush) /\
+    gst = emb_status (status_of raised) /\
+    g_paused g' = 0%Z /\ g_queue g' = [] /\
+    (forall k, ctr_getitem k (g_ignore g') = ctr_getitem k (g_ignore g)).
+Proof. exact GenLemmas.gen_delay_holds_everything. Qed.
+Print Assumptions gen_delay_holds_everything.
+
+(* translated broadcast, for every handler semantics: a message whose exact class has a positive ignore count is neither delivered nor queued *)
+Theorem gen_ignored_broadcast_dropped : forall (H F E : Type) (o : @ops H F) (r : @recs H F E) m g,
+  (ctr_getitem (py_type m) (g_ignore g) > 0)%Z ->
+  hub_broadcast o r m g = Some (GNormal, g, []).
+Proof. exact GenLemmas.gen_ignored_broadcast_dropped. Qed.
+Print Assumptions gen_ignored_broadcast_dropped.
+
+(* translated code: every task, also one ending by an exception, restores every ignore count (ignore blocks nest) *)
+Theorem gen_ignore_counts_restored : forall fuel w s g t gst g' lg,
+  R g s -> grun fuel w g (emb_task t) = Some (gst, g', lg) ->
+  forall k, ctr_getitem k (g_ignore g') = ctr_getitem k (g_ignore g).
+Proof. exact GenLemmas.gen_ignore_counts_restored. Qed.
+Print Assumptions gen_ignore_counts_restored.
+
+(* translated broadcast, for every handler semantics: a non-ignored message broadcast while a delay block is open is appended to the queue, and nothing else happens *)
+Theorem gen_paused_broadcast_queued : forall (H F E : Type) (o : @ops H F) (r : @recs H F E) m g,
+  (ctr_getitem (py_type m) (g_ignore g) <= 0)%Z -> g_paused g <> 0%Z ->
+  hub_broadcast o r m g = Some (GNormal, gset_queue g (g_queue g ++ [m]), []).
+Proof. exact GenLemmas.gen_paused_broadcast_queued. Qed.
+Print Assumptions gen_paused_broadcast_queued.
+
+(* translated delay_callbacks, for every body and handler semantics: leaving an inner block only decrements the depth - no flush, the queue is untouched *)
+Theorem gen_inner_delay_exit_does_not_flush : forall (H F E : Type) (o : @ops H F) (r : @recs H F E) (body : @M H F E) g st g1 l1,
+  body (gset_paused g (g_paused g + 1)%Z) = Some (st, g1, l1) ->
+  (g_paused g1 - 1 <> 0)%Z ->
+  hub_delay_callbacks o r body g = Some (st, gset_paused g1 (g_paused g1 - 1)%Z, l1 ++ []).
+Proof. exact GenLemmas.gen_inner_delay_exit_does_not_flush. Qed.
+Print Assumptions gen_inner_delay_exit_does_not_flush.
+
+(* ... and leaving the outermost one detaches the queue (the hub's own queue is empty during the flush) and hands it, in order, to the flush loop, whatever the status of the body; a non-normal status of the flush wins, else the body's status stands *)
+Theorem gen_outer_delay_exit_flushes_detached_queue : forall (H F E : Type) (o : @ops H F) (r : @recs H F E) (body : @M H F E) g st g1 l1,
+  body (gset_paused g (g_paused g + 1)%Z) = Some (st, g1, l1) ->
+  (g_paused g1 - 1 = 0)%Z ->
+  hub_delay_callbacks o r body g =
+  match rec_delay_callbacks_loop1 r (g_queue g1) (gset_queue (gset_paused g1 (g_paused g1 - 1)%Z) []) with
+  | None => None
+  | Some (st', g2, l2) => Some (match st' with GNormal => st | _ => st' end, g2, l1 ++ l2)
+  end.
+Proof. exact GenLemmas.gen_outer_delay_exit_flushes_detached_queue. Qed.
+Print Assumptions gen_outer_delay_exit_flushes_detached_queue.
+
+(* translated code: the outermost deliveries of a script come in blocks that follow the program order of its broadcasts, one block per broadcast, at most one delivery per listener in a block; the hub is left idle *)
+Theorem gen_per_listener_order : forall fuel w s g sc gst g' lg,
+  R g s -> handlers_rf w -> wf_subs (subs s) ->
+  g_paused g = 0%Z -> g_queue g = [] ->
+  grun fuel w g (GScript sc) = Some (gst, g', lg) ->
+  Blocks (bcasts sc) (top 0 lg) /\ balanced lg /\
+  g_paused g' = 0%Z /\ g_queue g' = [] /\
+  (forall k, ctr_getitem k (g_ignore g') = ctr_getitem k (g_ignore g)).
+Proof. exact GenLemmas.gen_per_listener_order. Qed.
+Print Assumptions gen_per_listener_order.
+
+(* translated code: a broadcast with no block open and a class that is not ignored calls, as outermost calls, exactly the handlers the translated _find_handlers returns, in that order, each listener at most once *)
+Theorem gen_deliver_once_right_listeners : forall fuel w s g m gst g' lg,
+  R g s -> handlers_rf w -> wf_subs (subs s) ->
+  g_paused g = 0%Z -> (ctr_getitem (py_type m) (g_ignore g) <= 0)%Z ->
+  grun fuel w g (GBcast m) = Some (gst, g', lg) ->
+  exists hs,
+    hub_find_handlers (gops w) g m = Some (emb_hs hs) /\
+    top 0 lg = to_calls m hs /\
+    balanced lg /\ gst = GNormal /\ NoDup (map fst hs).
+Proof. exact GenLemmas.gen_deliver_once_right_listeners. Qed.
+Print Assumptions gen_deliver_once_right_listeners.
+
+(* the message classes of glue/core/message.py (table dumped from the live package) form a single-inheritance tree: the model's class tree built from their first bases reproduces issubclass and _mro_count (which also counts object) for every one of them *)
+Theorem gen_message_classes_form_a_tree :
+  length msg_nbases = length msg_parents /\ length msg_mro_counts = length msg_parents /\
+  length msg_issubclass = length msg_parents /\
+  forall i, i < length msg_parents ->
+    nth i msg_nbases 0 = 1 /\
+    (Z.of_nat (tree_mro msg_parents i) + 1)%Z = nth i msg_mro_counts 0%Z /\
+    forall j, j < length msg_parents ->
+      tree_issub msg_parents i j = nth j (nth i msg_issubclass []) false.
+Proof. exact GenLemmas.gen_message_classes_form_a_tree. Qed.
+Print Assumptions gen_message_classes_form_a_tree.
